@@ -24,7 +24,7 @@ CHECKS = {
    note="Graphs with more than 20 solvable nodes are not proof-checked (counted; none occur in the families)."),
  "C04": dict(engine=E1, cat="model_checking", ref="DESIGN.md §3 C04",
    technique="exhaustive universe enumeration under catch_unwind + wall-clock monitor, both build profiles, capped render sinks",
-   text="Every case of the families (incl. F5/F11 soft families and cyclic F1) is solved and, when Unsolvable, rendered (graph, graphviz x2, user-friendly message; also with the provider's cancellation flag raised between the solve and the rendering) in builds with and without debug assertions; providers that use the SolverCache from sort_candidates are run under completion orders of the controlled executor; any panic, hang (monitor; re-run alone before it is reported), output beyond 1 MiB or beyond the line bound derived from the graph is a violation, and so is a case that brings the whole harness process down (isolated by re-running the workers' current cases alone in child processes).",
+   text="Every case of the families (incl. F5/F11 soft families and cyclic F1) (also with candidate - and so hint - lists that are not in ascending id order) is solved and, when Unsolvable, rendered (graph, graphviz x2, user-friendly message; also with the provider's cancellation flag raised between the solve and the rendering) in builds with and without debug assertions; providers that use the SolverCache from sort_candidates are run under completion orders of the controlled executor; any panic, hang (monitor; re-run alone before it is reported), output beyond 1 MiB or beyond the line bound derived from the graph is a violation, and so is a case that brings the whole harness process down (isolated by re-running the workers' current cases alone in child processes).",
    note="Well-formed providers only. The message bound is the size of the cycle-cut tree unfolding of the conflict graph."),
  "C05": dict(engine=E1, cat="model_checking", ref="DESIGN.md §3 C05",
    technique="exhaustive universe enumeration; solution compared with its own support fixpoint",
@@ -40,8 +40,8 @@ CHECKS = {
    note=""),
  "C09": dict(engine=E1, cat="model_checking", ref="DESIGN.md §3 C09",
    technique="exhaustive universe enumeration; provider call log walked against causality rules",
-   text="The complete provider call log of every solve (no hints, in both representations: the None variant and an empty list) is walked in order: get_dependencies only for matching candidates of requirements already obtained (or soft solvables), get_candidates only for names already mentioned, nothing twice (also when requests overlap: completion orders of an asynchronous provider, incl. one that reads dependencies through the cache from sort_candidates); on conflict-free cases the fetched sets must be exactly the solution / the mentioned names.",
-   note="Sync runtime; successive solves are covered by C13."),
+   text="The complete provider call log of every solve (no hints, in both representations: the None variant and an empty list) is walked in order: get_dependencies only for matching candidates of requirements already obtained (or soft solvables), get_candidates only for names already mentioned, nothing twice (also when requests overlap: completion orders of an asynchronous provider, incl. one that reads dependencies through the cache from sort_candidates; and over two successive solves on one solver when the first was cancelled at any poll index); on conflict-free cases the fetched sets must be exactly the solution / the mentioned names.",
+   note="Longer histories of successive solves are covered by C13."),
  "C10": dict(engine="E2 completion-order explorer", cat="model_checking", ref="DESIGN.md §3 C10",
    technique="stateless DFS over all completion orders of parked provider futures under a controlled single-threaded executor (deviation-bounded above a size cap)",
    text="For every instance of the tiny async family every order in which parked get_candidates/get_dependencies (thorough: also filter/sort) futures complete is executed on the real solver; each schedule must terminate (deadlock = quiescent with nothing parked), agree with the sync verdict, give a valid solution and never repeat a request - also with providers whose sort_candidates calls back into the SolverCache (dependencies of the sorted solvables, candidates of the packages they mention), whose requests race with the solver's own. Complete schedule trees below the cap, <= d deviations from FIFO above it (both counted).",
